@@ -114,6 +114,8 @@ def check_case(case, ctx):
     garbage = random.Random(case['stim_seed'] ^ 0x5a5a)
     with ctx.guard('simulation-raises', case):
         b = G.build(net)
+        from ..ref_circuit import snapshot_real
+        snap = snapshot_real(b.c)
         sim = LogicSim(b.c, sims=n, m=2, c_reuse=case['c_reuse'], strip_forks=case['strip_forks'])
         if sim.s_len != len(b.s_order):
             ctx.violation('state-order', f's_len {sim.s_len} != {len(b.s_order)} ports+state elements', case)
@@ -144,6 +146,8 @@ def check_case(case, ctx):
                     ctx.violation('internal-line', f'line {li} carrying {sig}: lanes {diff_lanes(got, val[sig], n)} differ (got {got & mask:#x}, expected {val[sig]:#x}); '
                                   f'strip={case["strip_forks"]}; {G.net_text(net)[:600]}', case)
                     break
+        if snapshot_real(b.c) != snap:
+            ctx.violation('circuit-mutated', f'constructing/running the simulator changed the circuit graph; {G.net_text(net)[:400]}', case)
         if case.get('cbpath'):
             # the second copy of the 2-valued evaluation loop (used when a callback is passed) must compute the same function
             simc = LogicSim(b.c, sims=n, m=2, c_reuse=case['c_reuse'], strip_forks=case['strip_forks'])
